@@ -386,6 +386,8 @@ def execStmt (w : World τ) (a : ActId) (fs : List (Frame τ)) : Stmt τ → Wor
     (w.emit a "avail" [l, if av then 1 else 0]).retTo a fs .unit
   | .qPut q v =>                                                       -- streams.py Queue.put
     let qu := w.queues.getD q default
+    let v := v * 1000 + w.putCount
+    let w := { w with putCount := w.putCount + 1 }
     let w := w.emit a "putreq" [q, v]
     if qu.closed then (w.emit a "putrej" [q, v]).raiseNew a fs .streamClosed
     else
@@ -402,6 +404,8 @@ def execStmt (w : World τ) (a : ActId) (fs : List (Frame τ)) : Stmt τ → Wor
   | .qIter q n body => w.retTo a (.qIterNext q n body :: fs) .unit
   | .cPut c v =>                                                       -- streams.py Channel.put
     let ch := w.chans.getD c default
+    let v := v * 1000 + w.putCount
+    let w := { w with putCount := w.putCount + 1 }
     let w := w.emit a "cputreq" [c, v]
     if ch.closed then (w.emit a "cputrej" [c, v]).raiseNew a fs .streamClosed
     else
